@@ -1064,6 +1064,18 @@ func (p *pkgCtx) schedMode(mut map[string]bool) {
 				args = ", " + strings.Join(ptrs, ", ")
 			}
 			p.insert(st.Pos(), fmt.Sprintf("func() { defer func() { recover() }(); vxsched.AsmEnter(%q, %q%s) }(); ", name, loc, args))
+			// arguments that contain calls run Go code between AsmEnter and the routine itself (a lazily built key schedule
+			// fetched in the argument list): the last argument is wrapped so that what that code changed is accounted to Go
+			// code right before the routine starts, and only the routine's own stores are attributed to it at AsmExit
+			anyCall := false
+			for _, a := range call.Args {
+				anyCall = anyCall || hasCall(a)
+			}
+			if anyCall && len(call.Args) > 0 && !call.Ellipsis.IsValid() {
+				last := call.Args[len(call.Args)-1]
+				p.insert(last.Pos(), "vxsched.PreAsm(")
+				p.insert(last.End(), ")")
+			}
 			switch st.(type) {
 			case *ast.ExprStmt, *ast.AssignStmt:
 				p.insert(st.End(), fmt.Sprintf("; vxsched.AsmExit(%q, %q)", name, loc))
